@@ -250,7 +250,8 @@ fn exec_pr(case: &PrCase) -> Outcome {
 			}
 			classes.push("jitter-spread".into());
 		}
-		if r == 0 && vals.iter().max().unwrap() - vals.iter().min().unwrap() > 2 {
+		// (the 200 evaluations take t1 - t0 seconds of wall clock, which on a loaded machine is more than a moment)
+		if r == 0 && vals.iter().max().unwrap() - vals.iter().min().unwrap() > 2 + (t1 - t0) as i128 {
 			return Outcome::fail("C06:unstable-without-jitter", format!("random_early_renew = 0 but 200 evaluations differ by more than the clock drift: {:?}..{:?}; {d}", vals.iter().min(), vals.iter().max()));
 		}
 	}
